@@ -93,6 +93,8 @@ fn main() {
         ("C08", Some(p)) => props::c08::replay(&p),
         ("C09", None) => props::c09::run(&ctx),
         ("C09", Some(p)) => props::c09::replay(&p),
+        ("C10", None) => props::c10::run(&ctx),
+        ("C10", Some(p)) => props::c10::replay(&p),
         ("C11", None) => props::c11::run(&ctx),
         ("C11", Some(p)) => props::c11::replay(&p),
         ("C12", None) => props::c12::run(&ctx),
